@@ -19,6 +19,7 @@ type RangeLoop struct {
 	nodes []node
 	ctx   *Ctx
 	kbuf  []byte
+	brk   bool
 	next  *RangeLoop
 }
 
@@ -49,7 +50,12 @@ func (rl *RangeLoop) SetVal(val any, ins inspector.Inspector) {
 
 // Iterate performs the iteration.
 func (rl *RangeLoop) Iterate() inspector.LoopCtl {
+	if rl.brk {
+		// The loop has been broken already, but the inspector keeps iterating.
+		return inspector.LoopCtlBrk
+	}
 	if rl.ctx.brkD > 0 {
+		rl.brk = true
 		return inspector.LoopCtlBrk
 	}
 
@@ -65,6 +71,7 @@ func (rl *RangeLoop) Iterate() inspector.LoopCtl {
 			if rl.ctx.brkD > 0 {
 				rl.ctx.brkD--
 			}
+			rl.brk = true
 			return inspector.LoopCtlBrk
 		}
 		if err == ErrContLoop {
@@ -75,6 +82,7 @@ func (rl *RangeLoop) Iterate() inspector.LoopCtl {
 		if rl.ctx.brkD > 0 {
 			rl.ctx.brkD--
 		}
+		rl.brk = true
 		return inspector.LoopCtlBrk
 	}
 	return inspector.LoopCtlNone
